@@ -3,15 +3,15 @@
 
   `Quiescent st trace` is a predicate on the **ghost history** only (Proofs/ClientQuiesceLemmas.lean):
   every front-end operation issued so far has been finished exactly once in the effect trace
-  (`complete` or `dropped`), and every stream ever opened is over (`Ended`: closed by the server, or
-  unsubscribed/dropped/lag-closed **and** the unsubscribe acknowledged; handler removed).  It does
-  not mention the four tables.
+  (`complete`, or `dropped` when its future had been abandoned), and every stream ever opened is over
+  (`Ended`: closed by the server or unsubscribed / dropped / lag-closed, and an unsubscribe once sent
+  has been acknowledged; a method handler removed).  It does not mention the four tables.
 -/
 import JrpcVerif.Proofs.ClientQuiesceLemmas
 namespace Jrpc.Client
 open Jrpc
 
-/-! ### C18.1 — what is left at quiescence -/
+/-! ### C18.1 — at quiescence nothing is left -/
 
 /-- full statement: at quiescence all four tables are empty -/
 def c18_empty_at_quiescence_statement : Prop :=
@@ -22,52 +22,56 @@ def c18_empty_at_quiescence_statement : Prop :=
 
 theorem ended_sub_false (x : Chan) (ho : isSubOwner x.owner = true) (h1 : x.closedByServer = false)
     (h2 : x.unsubscribed = false) (he : Ended x) : False := by
-  unfold Ended at he
+  obtain ⟨_, he⟩ := he
   cases hx : x.owner with
   | sub s => simp [hx, h1, h2] at he
   | method m => simp [hx, isSubOwner] at ho
 
-/-- Proved for **every** history of the current code: at quiescence three tables are empty and the
-`requests` table holds nothing but `PendingMethodCall(None)` slots (the F-10 residue) -/
-theorem c18_residue (cap : Nat) (strIds : Bool) (steps : List Step)
-    (hq : Quiescent (run (St.init cap strIds) steps).1 (run (St.init cap strIds) steps).2) :
-    (run (St.init cap strIds) steps).1.core.mgr.batches = [] ∧ (run (St.init cap strIds) steps).1.core.mgr.subs = [] ∧
-    (run (St.init cap strIds) steps).1.core.mgr.handlers = [] ∧
-    ∀ p ∈ (run (St.init cap strIds) steps).1.core.mgr.requests, p.2 = .pendingCall none := by
+theorem ended_unacked_false (x : Chan) (h1 : x.unsubscribed = true) (h2 : x.acked = false) (he : Ended x) : False := by
+  have := he.1 h1
+  rw [h2] at this; simp at this
+
+/-- **full strength**: for every history of the client — any sequence of atomic steps from a fresh
+client — at quiescence all four tables are empty -/
+theorem c18_empty_at_quiescence : c18_empty_at_quiescence_statement := by
+  intro cap strIds steps hq
   have hr : Reachable (run (St.init cap strIds) steps).1 := ⟨cap, strIds, steps, rfl⟩
   have hlive := quiescent_no_live cap strIds steps hq
   generalize (run (St.init cap strIds) steps).1 = st at *
   have hku := sku_reachable st hr
-  have hl := slive_reachable st hr
+  have ht := (stinv_reachable st hr).1
   have hrt := (sinv_reachable st hr).routes
-  have hreq : ∀ p ∈ st.core.mgr.requests, p.2 = .pendingCall none := by
-    intro p hp
-    obtain ⟨k, kd⟩ := p
-    cases kd with
-    | pendingCall t =>
-      cases t with
-      | none => rfl
-      | some t =>
-        have := reqCount_pos_of_mem t.op _ _ hp rfl
-        have h0 := hlive t.op
-        simp only [liveCount, coreCount] at h0; omega
-    | pendingSub uid t um =>
-      have := reqCount_pos_of_mem t.op _ _ hp rfl
-      have h0 := hlive t.op
-      simp only [liveCount, coreCount] at h0; omega
-    | sub uid c um =>
-      exfalso
-      have ha := mem_alookup_of_nodup k _ _ hp hku.requests
-      obtain ⟨x, hx, _, h3, h4, _, h6, _⟩ := hl.sub k uid c um ha
-      exact ended_sub_false x h6 h4 h3 (hq.2 x (List.mem_of_getElem? hx))
-  refine ⟨?_, ?_, ?_, hreq⟩
-  · cases hb : st.core.mgr.batches with
+  have hnoTicket : ∀ p ∈ st.core.mgr.requests, ∀ k, kindOp p.2 = some k → False := by
+    intro p hp k hk
+    have := reqCount_pos_of_mem k _ p hp hk
+    have h0 := hlive k
+    simp only [liveCount, coreCount] at h0; omega
+  have hreq : st.core.mgr.requests = [] := by
+    cases hreqs : st.core.mgr.requests with
     | nil => rfl
     | cons e rest =>
       exfalso
-      have := batCount_pos_of_mem st.core.mgr.batches e (by rw [hb]; exact List.mem_cons_self)
-      have h0 := hlive e.2.op
-      simp only [liveCount, coreCount] at h0; omega
+      have hp : e ∈ st.core.mgr.requests := by rw [hreqs]; exact List.mem_cons_self
+      obtain ⟨k, kd⟩ := e
+      have ha := mem_alookup_of_nodup k kd _ hp hku.requests
+      cases kd with
+      | pendingCall t =>
+        cases t with
+        | some t => exact hnoTicket _ hp t.op rfl
+        | none =>
+          rcases ht.slot k ha with ⟨sid, t, um, b⟩ | ⟨sid, c, um, b⟩ | ⟨c, x, c1, c2, c3, _⟩
+          · exact hnoTicket _ (alookup_mem _ _ _ b) t.op rfl
+          · obtain ⟨x, hx, _, h3, h4, _, h6, _⟩ := ht.live.sub sid k c um b
+            exact ended_sub_false x h6 h4 h3 (hq.2 x (List.mem_of_getElem? hx))
+          · exact ended_unacked_false x c2 c3 (hq.2 x (List.mem_of_getElem? c1))
+      | pendingSub uid t um => exact hnoTicket _ hp t.op rfl
+      | sub uid c um =>
+        obtain ⟨x, hx, _, h3, h4, _, h6, _⟩ := ht.live.sub k uid c um ha
+        exact ended_sub_false x h6 h4 h3 (hq.2 x (List.mem_of_getElem? hx))
+      | pendingUnsub rid c =>
+        obtain ⟨x, hx, h2, h3, _⟩ := ht.unsub.unsub k rid c ha
+        exact ended_unacked_false x h2 h3 (hq.2 x (List.mem_of_getElem? hx))
+  refine ⟨hreq, ?_, ?_, ?_⟩
   · cases hs : st.core.mgr.subs with
     | nil => rfl
     | cons e rest =>
@@ -75,40 +79,25 @@ theorem c18_residue (cap : Nat) (strIds : Bool) (steps : List Step)
       obtain ⟨s, rid⟩ := e
       have ha : alookup s st.core.mgr.subs = some rid := by rw [hs]; exact alookup_cons_self _ _ _
       obtain ⟨uid, c, um, h1, _⟩ := hrt.subs s rid ha
-      have := hreq _ (alookup_mem _ _ _ h1)
-      simp at this
+      rw [hreq] at h1; simp [alookup] at h1
+  · cases hb : st.core.mgr.batches with
+    | nil => rfl
+    | cons e rest =>
+      exfalso
+      have := batCount_pos_of_mem st.core.mgr.batches e (by rw [hb]; exact List.mem_cons_self)
+      have h0 := hlive e.2.op
+      simp only [liveCount, coreCount] at h0; omega
   · cases hh : st.core.mgr.handlers with
     | nil => rfl
     | cons e rest =>
       exfalso
       obtain ⟨m, c⟩ := e
       have ha : alookup m st.core.mgr.handlers = some c := by rw [hh]; exact alookup_cons_self _ _ _
-      obtain ⟨x, hx, h2, h3⟩ := hl.handler m c ha
-      have he := hq.2 x (List.mem_of_getElem? hx)
-      unfold Ended at he
+      obtain ⟨x, hx, h2, h3⟩ := ht.live.handler m c ha
+      have he := (hq.2 x (List.mem_of_getElem? hx)).2
       simp [h3, h2] at he
 
-/-- The full conclusion under an explicit decidable hypothesis on the history: no subscribe was
-ever issued (calls, batches, notifications, method handlers in any number and any interleaving) -/
-theorem c18_empty_at_quiescence_partial (cap : Nat) (strIds : Bool) (steps : List Step)
-    (hns : ∀ s ∈ steps, noSubscribe s = true)
-    (hq : Quiescent (run (St.init cap strIds) steps).1 (run (St.init cap strIds) steps).2) :
-    (run (St.init cap strIds) steps).1.core.mgr.requests = [] ∧ (run (St.init cap strIds) steps).1.core.mgr.subs = [] ∧
-    (run (St.init cap strIds) steps).1.core.mgr.batches = [] ∧ (run (St.init cap strIds) steps).1.core.mgr.handlers = [] := by
-  obtain ⟨h1, h2, h3, h4⟩ := c18_residue cap strIds steps hq
-  have hsf := (subfree_run steps (St.init cap strIds) hns
-    ⟨by intro p hp; simp [St.init] at hp, by intro m hm; simp [St.init] at hm⟩).1
-  refine ⟨?_, h2, h1, h3⟩
-  cases hr : (run (St.init cap strIds) steps).1.core.mgr.requests with
-  | nil => rfl
-  | cons e rest =>
-    exfalso
-    have hm : e ∈ (run (St.init cap strIds) steps).1.core.mgr.requests := by rw [hr]; exact List.mem_cons_self
-    obtain ⟨t, ht⟩ := hsf e hm
-    rw [h4 e hm] at ht
-    simp at ht
-
-/-! ### witnesses: the three quiescent leak paths of the current code (F-10 a, b, c) -/
+/-! ### witnesses: the pre-fix leak histories (F-10 a, b, c) are quiescent and now leave nothing -/
 
 /-- `{"jsonrpc":"2.0","id":0,"error":{"code":-32000,"message":"no"}}` -/
 def tRefuse : Text := [123, 34, 106, 115, 111, 110, 114, 112, 99, 34, 58, 34, 50, 46, 48, 34, 44, 34, 105, 100, 34, 58, 48, 44, 34, 101, 114, 114, 111, 114, 34, 58, 123, 34, 99, 111, 100, 101, 34, 58, 45, 51, 50, 48, 48, 48, 44, 34, 109, 101, 115, 115, 97, 103, 101, 34, 58, 34, 110, 111, 34, 125, 125]
@@ -126,17 +115,26 @@ def tUnsubM : Text := [117, 110, 115, 117, 98]
 
 /-- (a) subscribe refused -/
 def leakRefused : List Step := [.newSubscribe tSubM tUnsubM, .sendTask 0, .recv tRefuse]
-/-- (b) subscribe accepted, explicit unsubscribe, drained, acknowledged -/
+/-- (b) subscribe accepted, explicit unsubscribe, acknowledged -/
 def leakUnsubscribed : List Step :=
   [.newSubscribe tSubM tUnsubM, .sendTask 0, .recv tAccept0, .unsubscribeStream 0, .sendTask 0, .recv tAck1]
 /-- (c) subscribe accepted, closed by the server -/
 def leakServerClosed : List Step := [.newSubscribe tSubM tUnsubM, .sendTask 0, .recv tAccept0, .recv tCloseS]
+/-- (d) subscribe future abandoned, then accepted: the unsubscribe is written (`sendTask`) and acknowledged -/
+def leakAbandoned : List Step :=
+  [.newSubscribe tSubM tUnsubM, .sendTask 0, .abandon 0, .recv tAccept0, .sendTask 0, .recv tAck1]
+
+/-- what was handed to the transport -/
+def wiresIn : List Effect → List Text
+  | [] => []
+  | .wire t :: r => t :: wiresIn r
+  | _ :: r => wiresIn r
 
 /-- decidable rendering of `Quiescent` for concrete histories -/
 def quiescentB (st : St) (trace : List Effect) : Bool :=
   (List.range st.nextOp).all (fun k => compCount k trace == 1) &&
-  st.core.chans.all (fun ch => match ch.owner with
-    | .sub _ => ch.closedByServer || (ch.unsubscribed && ch.acked)
+  st.core.chans.all (fun ch => (!ch.unsubscribed || ch.acked) && match ch.owner with
+    | .sub _ => ch.closedByServer || ch.unsubscribed
     | .method _ => !ch.senderAlive)
 
 theorem quiescentB_sound (st : St) (trace : List Effect) (h : quiescentB st trace = true) : Quiescent st trace := by
@@ -145,32 +143,32 @@ theorem quiescentB_sound (st : St) (trace : List Effect) (h : quiescentB st trac
   refine ⟨fun k hk => h.1 k hk, fun ch hc => ?_⟩
   have := h.2 ch hc
   unfold Ended
-  cases ho : ch.owner with
-  | sub s => simp [ho] at this ⊢; exact this
-  | method m => simp [ho] at this ⊢; exact this
+  refine ⟨?_, ?_⟩
+  · intro hu; have := this.1; simp [hu] at this; exact this
+  · cases ho : ch.owner with
+    | sub s => have := this.2; simp [ho] at this ⊢; exact this
+    | method m => have := this.2; simp [ho] at this ⊢; exact this
 
 example : quiescentB (run (St.init 2 false) leakRefused).1 (run (St.init 2 false) leakRefused).2 = true ∧
-    (run (St.init 2 false) leakRefused).1.core.mgr.sizes = (1, 0, 0, 0) := by decide
+    (run (St.init 2 false) leakRefused).1.core.mgr.sizes = (0, 0, 0, 0) := by decide
 example : quiescentB (run (St.init 2 false) leakUnsubscribed).1 (run (St.init 2 false) leakUnsubscribed).2 = true ∧
-    (run (St.init 2 false) leakUnsubscribed).1.core.mgr.sizes = (1, 0, 0, 0) := by decide
+    (run (St.init 2 false) leakUnsubscribed).1.core.mgr.sizes = (0, 0, 0, 0) := by decide
 example : quiescentB (run (St.init 2 false) leakServerClosed).1 (run (St.init 2 false) leakServerClosed).2 = true ∧
-    (run (St.init 2 false) leakServerClosed).1.core.mgr.sizes = (1, 0, 0, 0) := by decide
-
-/-- the full statement is false of the code as it is -/
-theorem c18_empty_at_quiescence_statement_false : ¬ c18_empty_at_quiescence_statement := by
-  intro h
-  have hq : Quiescent (run (St.init 2 false) leakRefused).1 (run (St.init 2 false) leakRefused).2 :=
-    quiescentB_sound _ _ (by decide)
-  have := (h 2 false leakRefused hq).1
-  revert this
-  decide
-
--- non-vacuity of the partial theorem: a call, answered — quiescent and empty
+    (run (St.init 2 false) leakServerClosed).1.core.mgr.sizes = (0, 0, 0, 0) := by decide
+example : quiescentB (run (St.init 2 false) leakAbandoned).1 (run (St.init 2 false) leakAbandoned).2 = true ∧
+    (run (St.init 2 false) leakAbandoned).1.core.mgr.sizes = (0, 0, 0, 0) ∧
+    wiresIn ((run (St.init 2 false) leakAbandoned).2) = [encodeRequest { id := .num 0, method := tSubM, params := none },
+                                                          unsubRaw (.num 1) tUnsubM (.str [83])] := by decide
+-- while the unsubscribe is in flight the marker and the `PendingUnsubscribe` slot are there — and the
+-- history is not quiescent (the acknowledgement is still owed)
+example : quiescentB (run (St.init 2 false) (leakUnsubscribed.take 5)).1 (run (St.init 2 false) (leakUnsubscribed.take 5)).2 = false ∧
+    (run (St.init 2 false) (leakUnsubscribed.take 5)).1.core.mgr.sizes = (2, 0, 0, 0) := by decide
+-- a call, answered — quiescent and empty
 example : quiescentB (run (St.init 2 false) [.newCall tM none, .sendTask 0, .recv tCallAns]).1
       (run (St.init 2 false) [.newCall tM none, .sendTask 0, .recv tCallAns]).2 = true ∧
     (run (St.init 2 false) [.newCall tM none, .sendTask 0, .recv tCallAns]).1.core.mgr.sizes = (0, 0, 0, 0) := by decide
 
-/-! ### C18.2 — list length is `HashMap::len`; nothing finished occupies a table -/
+/-! ### C18.2 — list length is `HashMap::len`; every table entry belongs to open work -/
 
 /-- keys of each table are pairwise distinct in every reachable state, so the list lengths reported
 by the model are the `len()` of the real hash maps -/
@@ -179,28 +177,39 @@ theorem c18_keys_unique (st : St) (hr : Reachable st) :
     (akeys st.core.mgr.batches).Nodup ∧ (akeys st.core.mgr.handlers).Nodup :=
   ⟨(sku_reachable st hr).requests, (sku_reachable st hr).subs, (sku_reachable st hr).batches, (sku_reachable st hr).handlers⟩
 
-/-- every table entry other than a `PendingMethodCall(None)` slot belongs to work that is still open:
-a waiting ticket, a subscription whose channel is neither closed by the server nor unsubscribed, a
-handler whose channel still has its sender -/
+/-- every entry belongs to work that is still open (at every moment, not only at quiescence): a
+subscription entry to a channel neither closed by the server nor unsubscribed; a reverse-index
+entry to such a subscription entry; a handler entry to a channel that still has its sender; a bare
+`PendingMethodCall(None)` slot to a pending subscribe, an active subscription or an unsubscribe not
+yet acknowledged; a `PendingUnsubscribe` entry to an unsubscribe not yet acknowledged -/
 theorem c18_tables_hold_open_work (st : St) (hr : Reachable st) :
     (∀ id uid c um, alookup id st.core.mgr.requests = some (.sub uid c um) →
       ∃ x, st.core.chans[c]? = some x ∧ x.closedByServer = false ∧ x.unsubscribed = false ∧ x.senderAlive = true) ∧
     (∀ s rid, alookup s st.core.mgr.subs = some rid → ∃ uid c um, alookup rid st.core.mgr.requests = some (.sub uid c um)) ∧
-    (∀ m c, alookup m st.core.mgr.handlers = some c → ∃ x, st.core.chans[c]? = some x ∧ x.senderAlive = true) := by
-  have hl := slive_reachable st hr
+    (∀ m c, alookup m st.core.mgr.handlers = some c → ∃ x, st.core.chans[c]? = some x ∧ x.senderAlive = true) ∧
+    (∀ k, alookup k st.core.mgr.requests = some (.pendingCall none) →
+      (∃ sid t um, alookup sid st.core.mgr.requests = some (.pendingSub k t um)) ∨
+      (∃ sid c um, alookup sid st.core.mgr.requests = some (.sub k c um)) ∨
+      (∃ (c : ChanId) (x : Chan), st.core.chans[c]? = some x ∧ x.unsubscribed = true ∧ x.acked = false ∧ x.rid = k)) ∧
+    (∀ k rid c, alookup k st.core.mgr.requests = some (.pendingUnsub rid c) →
+      ∃ x, st.core.chans[c]? = some x ∧ x.unsubscribed = true ∧ x.acked = false) := by
+  have ht := (stinv_reachable st hr).1
   have hrt := (sinv_reachable st hr).routes
-  refine ⟨?_, ?_, ?_⟩
+  refine ⟨?_, ?_, ?_, ht.slot, ?_⟩
   · intro id uid c um h
-    obtain ⟨x, h1, _, h3, h4, h5, _⟩ := hl.sub id uid c um h
+    obtain ⟨x, h1, _, h3, h4, h5, _⟩ := ht.live.sub id uid c um h
     exact ⟨x, h1, h4, h3, h5⟩
   · intro s rid h
     obtain ⟨uid, c, um, h1, _⟩ := hrt.subs s rid h
     exact ⟨uid, c, um, h1⟩
   · intro m c h
-    obtain ⟨x, h1, h2, _⟩ := hl.handler m c h
+    obtain ⟨x, h1, h2, _⟩ := ht.live.handler m c h
     exact ⟨x, h1, h2⟩
+  · intro k rid c h
+    obtain ⟨x, h1, h2, h3, _⟩ := ht.unsub.unsub k rid c h
+    exact ⟨x, h1, h2, h3⟩
 
-/-! ### C18.3 — ids of finished calls cannot capture a later message -/
+/-! ### C18.3 — ids of finished work cannot capture a later message -/
 
 /-- once a call has been completed, its id is no key of the pending table any more: a later response
 with that id completes nothing and is rejected (`NotPendingRequest`) -/
@@ -222,11 +231,17 @@ theorem c18_no_capture_call (st st' : Core) (r r' : Response) (t : Ticket) (effs
     simp only [hid, alookup_aerase_self]
   rw [this]
 
-/-- in the current code the leftover slots **do** capture: a stray response bearing the reserved
-unsubscribe id of a refused subscription is swallowed silently instead of being rejected -/
-example : (step (run (St.init 2 false) leakRefused).1 (.recv tAck1)).fatal = none ∧
-    (step (run (St.init 2 false) leakRefused).1 (.recv tAck1)).effs = [] ∧
-    (step (step (run (St.init 2 false) leakRefused).1 (.recv tAck1)).st (.recv tAck1)).fatal = some (.notPending (.num 1)) := by
+/-- at quiescence **every** response is rejected: no id of finished work can capture a later message -/
+theorem c18_no_capture_at_quiescence (cap : Nat) (strIds : Bool) (steps : List Step)
+    (hq : Quiescent (run (St.init cap strIds) steps).1 (run (St.init cap strIds) steps).2) (r : Response) :
+    processSingleResponse (run (St.init cap strIds) steps).1.core r = .error (.notPending r.id) := by
+  have h := (c18_empty_at_quiescence cap strIds steps hq).1
+  unfold processSingleResponse Mgr.requestStatus
+  rw [h]
+  simp [alookup]
+
+/-- pre-fix the reserved slot of a refused subscribe swallowed one stray response; now it is rejected -/
+example : (step (run (St.init 2 false) leakRefused).1 (.recv tAck1)).fatal = some (.notPending (.num 1)) := by
   decide
 
 end Jrpc.Client
